@@ -3258,6 +3258,10 @@ def inject_comments(rng, src):
         if "(" in l and ")" in l and rng.random() < 0.05 and '"' not in l and "'" not in l and "`" not in l:
             n += 1
             l = l.replace("(", f"( /* in {n} */ ", 1)
+        if stripped.startswith("package ") and depth == 0 and rng.random() < 0.35:
+            # a comment trailing the package clause (an import comment, say): go/ast's comment map hangs it on the package name
+            n += 1
+            l = l + rng.choice([f' // import "example.com/p{n}"', f" // trailing the package clause {n}", f" /* pkg {n} */"])
         out.append(l)
         depth += l.count("{") - l.count("}")
         if depth == 0 and stripped == "}" and rng.random() < 0.2:
